@@ -102,7 +102,7 @@ func VerifC04YAMLPipeline() {
 	}
 	// parameters may refer to each other, to themselves (growing), or in a cycle
 	doc := obj("inputs", arr(input), "output", output, "parameters",
-		obj("dir", v.Str("dirvalue", "/d", "%dir%/sub", "%root%"), "root", v.Str("rootvalue", "r", "%dir%")))
+		obj("dir", []string{"/d", "%dir%/sub", "%root%"}[v.Choose(3)], "root", []string{"r", "%dir%"}[v.Choose(2)]))
 	p, err := PipelineFromFile(v.TempFile(v.JSONBytes(doc)), Parameters(map[string]string{"cond": "true"}))
 	if err != nil {
 		v.Reach("the loader rejected the file")
